@@ -1191,7 +1191,7 @@ class Unit:
         if opts.get("closure"):
             # R26: the N-th block closure `|params| { .. }` of the function is put under contract as a function of its
             # own: the body is the closure's block, verbatim; the signature (closures have none) comes from `//@sig`
-            it = self.closure_item(f, it, int(opts["closure"]), name)
+            it = self.closure_item(f, it, int(opts["closure"]), name, opts.get("after"))
             name = opts.get("as", "%s_closure%s" % (name, opts["closure"]))
         fn_log = {}
         rw = Rewriter(fn_log, self.tags)
@@ -1521,8 +1521,10 @@ class Unit:
         self.fns.append(meta)
 
     @staticmethod
-    def closure_item(f, it, nth, name):
-        """locate the nth block closure inside function item `it` of RustFile f; returns an Item-like object"""
+    def closure_item(f, it, nth, name, after=None):
+        """locate the nth block closure inside function item `it` of RustFile f; returns an Item-like object.
+        With `after` (a regex, e.g. a match-arm pattern) only closures that start behind the first match of the regex
+        inside the function are counted: `closure=1 after="Message::RevokeCommitmentTx\(m\) =>"` is the closure of that arm."""
         toks = f.toks
         tr = getattr(it, "toks_range", None)
         lo, hi = (tr[0], tr[-1] + 1) if tr else (0, len(toks))
@@ -1554,6 +1556,12 @@ class Unit:
                         continue
                     k = j
             k += 1
+        if after:
+            am = re.search(after, f.src[it.body_open:it.end])
+            if not am:
+                raise ExtractError("anchor lost: after=/%s/ of %s" % (after, name))
+            pos = it.body_open + am.end()
+            found = [x for x in found if x[0] > pos]
         if len(found) < nth:
             raise ExtractError("anchor lost: closure #%d of %s (%d block closures found)" % (nth, name, len(found)))
 
